@@ -86,7 +86,7 @@ Callback::Listener::~Listener()
       {
         Callback::Emitter::SignalData& signalData = *it;
         for(List<Callback::Emitter::Slot>::Iterator i = signalData.slots.begin(); i != signalData.slots.end(); ++i)
-          if(i->receiver == this && i->slot == signalData1.slot)
+          if(i->state != Callback::Emitter::Slot::disconnected && i->receiver == this && i->slot == signalData1.slot)
           {
             if(signalData.activation)
             {
@@ -132,7 +132,7 @@ void Callback::disconnect(Callback::Emitter* emitter, const MemberFuncPtr& signa
 
   Callback::Emitter::SignalData& signalData = *it;
   for(List<Callback::Emitter::Slot>::Iterator i = signalData.slots.begin(); i != signalData.slots.end(); ++i)
-    if(i->receiver == receiver && i->slot == slot)
+    if(i->state != Callback::Emitter::Slot::disconnected && i->receiver == receiver && i->slot == slot)
     {
       if(signalData.activation)
       {
